@@ -238,6 +238,42 @@ def _chunk(mats):
     return out
 
 
+def engine_line_check():
+    # confidences of lines as the ENGINE stores them: the real process_lines (default sparse storage) on a network whose posteriors
+    # are one-hot (winner 40, all others -40 per frame) - the line confidence and every character confidence are 1
+    try:
+        import numpy as npx
+        import torch as torchx
+        from pero_ocr.ocr_engine import line_ocr_engine as lex
+        from pero_ocr.core import layout as layoutx, confidence_estimation as cex
+        from pero_ocr.document_ocr import page_parser as ppx
+        from props import _engine_stub as ESx
+        engx = ESx.make_engine(npx, torchx, lex, 4)
+        path = [3, 3, 0, 3, 1, 1, 3, 2, 3, 0, 3, 3]
+
+        def sat_net(batch_data):
+            N, T = batch_data.shape[0], batch_data.shape[2] // 4
+            lg = npx.full((N, T, 4), -40.0, dtype=npx.float32)
+            lg[:, :, 3] = 40.0
+            for t_, c_ in enumerate(path):
+                lg[:, 8 + t_, :] = -40.0
+                lg[:, 8 + t_, c_] = 40.0
+            return ['abca'] * N, lg
+        engx.run_ocr = sat_net
+        tr_, lg_, co_ = engx.process_lines([ESx.make_line(npx, 60, 1)])
+        linex = layoutx.TextLine(id='l', transcription=tr_[0], logits=lg_[0], characters=list(engx.characters), logit_coords=co_[0])
+        cw = float(ppx.PageParser.compute_line_confidence(linex))
+        cc = cex.get_line_confidence(linex, npx.asarray([0, 1, 2, 0]))
+        bad_e = []
+        if abs(cw - 1) > 1e-3:
+            bad_e.append(('one-hot-posteriors-give-one', 'line produced by process_lines from one-hot network posteriors: compute_line_confidence %.4f' % cw))
+        if npx.abs(npx.asarray(cc) - 1).max() > 1e-3:
+            bad_e.append(('one-hot-posteriors-give-one', 'line produced by process_lines from one-hot network posteriors: character confidences %r' % npx.asarray(cc).round(4).tolist()))
+    except Exception as e:
+        bad_e = [('no-exception', 'engine-line check raised %r' % (e,))]
+    return bad_e
+
+
 def run(ctx):
     from pyvc import run as vrun
     thorough = ctx.tier == 'thorough'
@@ -295,6 +331,10 @@ def run(ctx):
                     res['evaluations'], res['nontrivial'], False, res['samples'], fails,
                     rule='every k-th matrix of the product (stated stride); non-trivial = at least three frames',
                     clause='range; shift invariance; threshold monotonicity; normalised posteriors')
+    bad_e = engine_line_check()
+    ctx.add_bounded('engine-lines', 'one line through the real BaseEngineLineOCR.process_lines (sparse storage) with a stub network whose posteriors are one-hot', 1, 1, False, [{'path': 'abca'}],
+                    [Failure(sig('rt', 'confidence', c_), d_, function='process_lines -> compute_line_confidence / get_line_confidence', input={'engine_line': True}, observed=d_, clause=c_) for c_, d_ in bad_e[:1]],
+                    rule='fixed case', clause='one-hot posteriors give confidence 1 for lines as the engine stores them')
     from props import _longline
     import numpy as np_
     from scipy import sparse as sparse_
@@ -321,6 +361,12 @@ def replay(entry):
     from pero_ocr.core import layout
     from pero_ocr.decoding.bag_of_hypotheses import BagOfHypotheses
     inp = entry.get('input') or {}
+    if inp.get('engine_line'):
+        bad = engine_line_check()
+        for b in bad:
+            print('REPLAY-FAIL', b)
+        print('replay: %d problem(s) on the engine-stored line' % len(bad))
+        return 1 if bad else 0
     if inp.get('long_line'):
         from props import _longline
         n_, bad = _longline.check_confidence(np, sparse, layout, ce)
